@@ -67,3 +67,8 @@ C['C15'] = dict(
  text="Round trip, tag correctness, injectivity across kinds and agreement of the signed word order with the integer order are established for the real width by Apalache's SMT encoding (and exhaustively for small widths by TLC; the pre-fix unsigned ordering is refuted on every run). The real constructors and accessors are then driven over the integer lattice, the complete cross product of a boundary set of function descriptors, random float bit patterns, random UTF-8 and nested arrays, and every recorded raw word / decoded payload / tag / alignment is validated against the scheme; `==` is validated on the complete cross product of a 200-value sample.",
  ref="DESIGN.md 5 C15",
  note="Trusted: TLC, Apalache 0.58 + Z3, NlBig limb arithmetic, the hook Object::raw_bits. Array equality is outside the property (scalars, text, functions).")
+C['C17'] = dict(
+ tech="the session law decided by the TLA+ reference semantics on the concatenated program (each line of each recorded session of one retained Compiler+VM pair validated by TLC as the last line of the program made of everything completed before it); TLA+ trace specification NlSession (set of possible persistent states) for lines cut short after k instructions, every k",
+ text="All 1 884 sessions of up to three lines over a 12-line alphabet and random sessions of up to 12 lines (declarations, assignments, loops, functions used inside their line, heap-valued globals; lines that fail to parse, fail to compile at every statement position, fail at run time after a prefix of their statements) are executed on one retained (Compiler, VM) pair; TLC validates each line's observation against NlSem on the concatenation. Sessions whose increment line is cut short by an injected error after k instructions, for every k, are validated against NlSession: later lines must show a state that some prefix of the line's assignments produces, rejected lines leave no trace.",
+ ref="DESIGN.md 5 C17",
+ note="Trusted: TLC, the recorder, the harness's construction of the concatenated program (a session whose line fails where no failure was planned is validated up to and including that line only).")
